@@ -294,6 +294,16 @@ func c32Check(c c32Case) (err error) {
 				for oi, op := range ops {
 					id := fmt.Sprintf("r%dp%di%d", ri, pi, oi)
 					switch op.K {
+					case "burst":
+						// more events than the loop's input buffer holds (128),
+						// issued back to back by one producer
+						for k := 0; k < op.N; k++ {
+							bid := fmt.Sprintf("%s#%d", id, k)
+							r.inputMu.Lock()
+							r.arrivals = append(r.arrivals, bid)
+							r.lp.Input(bid)
+							r.inputMu.Unlock()
+						}
 					case "input", "inputret":
 						r.inputMu.Lock()
 						r.arrivals = append(r.arrivals, id)
@@ -479,6 +489,22 @@ func c32GenOps(t *rapid.T, allowReturn bool) []c32Op {
 
 func c32Gen(t *rapid.T) c32Case {
 	var c c32Case
+	if rapid.IntRange(0, 9).Draw(t, "?burst") == 0 {
+		// one or two producers flood the loop with more events than its input
+		// buffer holds while the handler is slow: arrival order must survive
+		np := rapid.IntRange(1, 2).Draw(t, "burstproducers")
+		var round c32Round
+		for pi := 0; pi < np; pi++ {
+			ops := []c32Op{{K: "input", N: 3}, {K: "burst", N: rapid.IntRange(130, 330).Draw(t, "burst")}}
+			if rapid.Bool().Draw(t, "?redrawafter") {
+				ops = append(ops, c32Op{K: "full"})
+			}
+			round.Producers = append(round.Producers, ops)
+		}
+		c.Rounds = []c32Round{round}
+		c.RedrawYield = rapid.IntRange(0, 3).Draw(t, "redrawyield")
+		return c
+	}
 	nr := rapid.IntRange(1, 3).Draw(t, "rounds")
 	// Most cases keep the loop alive through all rounds (that is where the
 	// redraw invariants bite); in the others a Return may come from anywhere.
